@@ -227,7 +227,9 @@ class Env:
         sa, fa = flatten(a)
         sb, fb = flatten(b)
         if sa != sb:
-            self._record(name, "cex", None if not self.sym else self.ctx.model()[1], f"shape {sa} != {sb}")
+            if self.sym:
+                return self._decide(name, lambda extra: prove(self.ctx, False, self.obl_timeout_ms, extra), f"shape {sa} != {sb}")
+            self._record(name, "cex", None, f"shape {sa} != {sb}")
             return False
         ok = True
         for k, (x, y) in enumerate(zip(fa, fb)):
